@@ -52,9 +52,23 @@ fn type_graph(s: &str, toks: &[tok::Tok]) -> Vec<(String, Vec<String>, Vec<Strin
                         // a field name is followed by ':', a type is not
                         let is_field_name = k + 1 < toks.len() && text(&toks[k + 1]) == ":";
                         if !is_field_name {
-                            let optional = k + 1 < toks.len() && text(&toks[k + 1]) == "?"
-                                // `X[..]?`: skip
-                                ;
+                            // `X?` or `X[..]?`
+                            let mut e = k + 1;
+                            if e < toks.len() && text(&toks[e]) == "[" {
+                                let mut d = 0i32;
+                                while e < toks.len() {
+                                    match text(&toks[e]) {
+                                        "[" => d += 1,
+                                        "]" => d -= 1,
+                                        _ => {}
+                                    }
+                                    e += 1;
+                                    if d == 0 {
+                                        break;
+                                    }
+                                }
+                            }
+                            let optional = e < toks.len() && text(&toks[e]) == "?";
                             if sq > 0 || optional {
                                 via.push(t.to_string());
                             } else {
@@ -259,7 +273,8 @@ pub fn features(s: &str) -> Value {
         "import_kw": has("import"),
         "type_cycle_via_argument": type_cycle_via_argument(&g),
         "self_referential_use": self_referential_use(s, &toks),
-        "none_or_generic_enum": has("None") || generic_enum_decl,
+        "none_or_generic_enum": has("None") || has("Some") || generic_enum_decl,
+        "variant_dot": toks.windows(2).any(|w| matches!(text(&w[0]), "None" | "Some") && text(&w[1]) == "."),
         "unit_like": unit_like,
         "eq_or_list": eq_or_list,
         "never_type_written": never_type_written(s, &toks),
@@ -335,7 +350,7 @@ pub fn matches_parts(matcher: &str, class: &str, c: &Value) -> bool {
         "field_of_enum_constructor" => {
             class.starts_with("panic:src/typechecker/expr.rs:")
                 && msg.starts_with("not yet implemented: make a nice error for variant cannot have field")
-                && (on("path3") || on("import_kw"))
+                && (on("path3") || on("import_kw") || on("variant_dot"))
         }
         "occurs_check_missing" => is_stack_death(class) && on("self_referential_use"),
         "type_cycle_through_type_argument" => is_stack_death(class) && on("type_cycle_via_argument"),
@@ -346,7 +361,7 @@ pub fn matches_parts(matcher: &str, class: &str, c: &Value) -> bool {
                 || class == "location:not-char-boundary")
                 && d["span_len"] == 1
                 && d["start_is_boundary"] == true
-                && d["kinds"] == json!(["parse"])
+                && d["kinds"].as_array().is_some_and(|a| !a.is_empty() && a.iter().all(|k| k == "parse"))
                 && on("nonascii")
         }
         // N8: the span given to a module's own name is bytes 0..1 of its file, whatever the file contains
